@@ -70,13 +70,14 @@ def bounded_oracle(case, impl, model):
     if a.kind != "ok" or b.kind != "ok":
         return [f"allocation loop ended with {a.status[:3]} / {b.status[:3]}"]
     probs = []
-    na, nb = int(a.extra.get("nlists", -1)) + int(a.extra.get("nrecords", -1)), int(b.extra.get("nlists", -1)) + int(b.extra.get("nrecords", -1))
     if int(b.extra.get("colls", 0)) < 2:
         probs.append(f"route {case.info['route']}: only {b.extra.get('colls')} collections in {case.info['iters'][1]} iterations")
-    # at most `threshold` allocation units pass between two collections and each object costs at least one unit, so
-    # no more than threshold + (objects of one statement) slots can be live-or-garbage at any time
-    if nb > 1000 + 16 or nb > na + 16:
-        probs.append(f"route {case.info['route']}: arena has {na} slots after {case.info['iters'][0]} iterations and {nb} after {case.info['iters'][1]} (bound 1016)")
+    # at most `threshold` allocation units pass between two collections and each object costs at least one unit, so neither
+    # arena can ever hold more than threshold + (objects of one statement) slots, whatever the number of iterations
+    for k in ("nlists", "nrecords"):
+        na, nb = int(a.extra.get(k, -1)), int(b.extra.get(k, -1))
+        if nb > 1000 + 32 or nb > na + 32:
+            probs.append(f"route {case.info['route']}: {k} is {na} after {case.info['iters'][0]} iterations and {nb} after {case.info['iters'][1]} (bound 1032)")
     return probs
 
 
@@ -97,6 +98,23 @@ def cases(rng, tier, stats):
         lines = [run_req(a, heap=1, steps=5000000, fuel=5000000), run_req(b, heap=1, steps=5000000, fuel=5000000)]
         ex = ("nlists", "nfreeL", "nrecords", "nfreeR", "colls")
         out.append(C.Case("allocation-loop", lines, cmp_run(extra=ex), bounded_oracle, info={"route": route, "iters": (N, 4 * N), "src": a}))
+    # two-phase histories: containers of one kind are allocated, dropped and reclaimed first, then a long loop allocates
+    # only the other kind (a free slot of the wrong kind must not keep collections from happening)
+    def two_phase(a, b_, iters):
+        first = [("decl", "গ", G.num(0)), ("decl", "ভিত্তি", G.lst(G.num(1), G.num(2))),
+                 ("loop", [("assign", "গ", [], G.bin_("+", G.var("গ"), G.num(1))), ("if", [(G.bin_(">", G.var("গ"), G.num(700)), [("break",)])], None), ROUTES[a]]),
+                 ("assign", "গ", [], G.num(0))]
+        second = [("loop", [("assign", "গ", [], G.bin_("+", G.var("গ"), G.num(1))), ("if", [(G.bin_(">", G.var("গ"), G.num(iters)), [("break",)])], None), ROUTES[b_]]),
+                  ("print", G.var("গ"))]
+        return first + second
+    pairs = [("record-literal", "list-literal"), ("list-literal", "record-literal"), ("empty-record", "empty-list"), ("nested", "split"),
+             ("empty-list", "record-literal"), ("record-literal", "concat")]
+    for a_, b_ in pairs:
+        p1, p2 = G.source(two_phase(a_, b_, N), "lines"), G.source(two_phase(a_, b_, 4 * N), "lines")
+        lines = [run_req(p1, heap=1, steps=8000000, fuel=8000000), run_req(p2, heap=1, steps=8000000, fuel=8000000)]
+        ex = ("nlists", "nfreeL", "nrecords", "nfreeR", "colls")
+        out.append(C.Case("allocation-two-phase", lines, cmp_run(extra=ex), bounded_oracle, info={"route": f"{a_} then {b_}", "iters": (N, 4 * N), "src": p1}))
+    stats["two_phase_pairs"] = [f"{a_}->{b_}" for a_, b_ in pairs]
     stats["allocation_routes"] = list(ROUTES)
     stats["iterations"] = [N, 4 * N]
     return out
